@@ -5,12 +5,361 @@ From C12 Require Import Generated Model.
 Import ListNotations.
 Open Scope Z_scope.
 
+(* ------------------------------------------------------------------ generic: results *)
+Definition post {A} (P : A -> Prop) (r : res A) : Prop :=
+  match r with Ok a => P a | Err _ => True | OOF => False end.
+
+Lemma post_bind : forall A B (P : A -> Prop) (Q : B -> Prop) r k,
+  post P r -> (forall a, P a -> post Q (k a)) -> post Q (bind r k).
+Proof. intros A B P Q [a|e|] k H1 H2; cbn in *; auto. Qed.
+
+Lemma post_weaken : forall A (P Q : A -> Prop) r, post P r -> (forall a, P a -> Q a) -> post Q r.
+Proof. intros A P Q [a|e|] H1 H2; cbn in *; auto. Qed.
+
+Lemma post_not_oof : forall A (P : A -> Prop) r, post P r -> r <> OOF.
+Proof. intros A P [a|e|] H; cbn in *; congruence. Qed.
+
+(* r ⊑ r' : r is out of fuel, or the two agree *)
+Definition le_res {A} (r r' : res A) : Prop := r = OOF \/ r = r'.
+
+Lemma le_refl : forall A (r : res A), le_res r r.
+Proof. right; reflexivity. Qed.
+Lemma le_oof : forall A (r : res A), le_res OOF r.
+Proof. left; reflexivity. Qed.
+Lemma le_trans : forall A (a b c : res A), le_res a b -> le_res b c -> le_res a c.
+Proof. intros A a b c [H|H] [H'|H']; subst; unfold le_res; auto. Qed.
+Lemma le_bind : forall A B (r r' : res A) (k k' : A -> res B),
+  le_res r r' -> (forall a, le_res (k a) (k' a)) -> le_res (bind r k) (bind r' k').
+Proof.
+  intros A B r r' k k' [H|H] Hk; subst; [left; reflexivity|].
+  destruct r' as [a|e|]; cbn; [apply Hk | right; reflexivity | left; reflexivity].
+Qed.
+Lemma le_eq : forall A (r r' : res A), le_res r r' -> r <> OOF -> r' = r.
+Proof. intros A r r' [H|H] N; congruence. Qed.
+
+(* the automation used by every monotonicity proof: both sides have the same shape *)
+Ltac mono_step IH :=
+  first
+    [ apply le_refl
+    | apply le_oof
+    | solve [apply IH]
+    | apply le_bind; [ | intros ? ]
+    | match goal with
+      | |- le_res (match ?x with _ => _ end) _ => destruct x
+      end ].
+Ltac mono IH := repeat (mono_step IH).
+
+(* ------------------------------------------------------------------ generic: lists *)
+Lemma tl_le : forall A (s : list A), (length (tl s) <= length s)%nat.
+Proof. destruct s; cbn; lia. Qed.
+Lemma skipn_le : forall A n (s : list A), (length (skipn n s) <= length s)%nat.
+Proof. intros; rewrite skipn_length; lia. Qed.
+
 Section P.
 Variable E : env.
 
+(* ------------------------------------------------------------------ lexer loops: never longer, i.e. the index never moves back *)
 Lemma skip_space_le : forall ign s, (length (skip_space E ign s) <= length s)%nat.
 Proof.
   induction s as [|c r IH]; cbn [skip_space]; [lia|].
   destruct (isspace E c && (ign || negb (c =? 10))); cbn [length] in *; lia.
 Qed.
+
+Lemma read_shifted_comment_le : forall s, (length (read_shifted_comment s) <= length s)%nat.
+Proof.
+  assert (G : forall n s, (length s <= n)%nat -> (length (read_shifted_comment s) <= length s)%nat).
+  { induction n as [|n IH]; intros s Hn; (destruct s as [|c r]; cbn [read_shifted_comment]; [lia|]); cbn [length] in Hn; [lia|].
+    destruct (c =? 34).
+    - destruct r as [|q r']; [cbn; lia|].
+      destruct (q =? 34); [|cbn [length] in *; lia].
+      specialize (IH r'). cbn [length] in *. lia.
+    - specialize (IH r). cbn [length] in *. lia. }
+  intros s. apply (G (length s)). lia.
+Qed.
+
+Lemma num_scan_le : forall s acc uf, (length (fst (fst (num_scan E s acc uf))) <= length s)%nat.
+Proof.
+  assert (G : forall n s, (length s <= n)%nat -> forall acc uf, (length (fst (fst (num_scan E s acc uf))) <= length s)%nat).
+  { induction n as [|n IH]; intros s Hn acc uf; (destruct s as [|c r]; cbn [num_scan]; [cbn; lia|]); cbn [length] in Hn; [lia|].
+    destruct (c =? 46); [specialize (IH r); specialize (IH ltac:(lia) (c :: acc) true); cbn [length] in *; lia|].
+    destruct (c =? 101).
+    - destruct r as [|d r']; [cbn; lia|].
+      destruct ((d =? 45) || (d =? 43)).
+      + destruct r' as [|x r'']; [cbn; lia|].
+        specialize (IH r''). cbn [length] in *. specialize (IH ltac:(lia) (x :: d :: c :: acc) true). lia.
+      + specialize (IH (d :: r')). cbn [length] in *. specialize (IH ltac:(lia) (c :: acc) true). lia.
+    - destruct (isnumeric E c).
+      + specialize (IH r). specialize (IH ltac:(lia) (c :: acc) uf). cbn [length] in *; lia.
+      + cbn [fst length]; lia. }
+  intros s. apply (G (length s)). lia.
+Qed.
+
+(* the first character is consumed when it is a digit, a '.' or an 'e' *)
+Lemma num_scan_lt : forall c r acc uf,
+  isnumeric E c = true ->
+  (length (fst (fst (num_scan E (c :: r) acc uf))) < length (c :: r))%nat.
+Proof.
+  intros c r acc uf Hc. cbn [num_scan].
+  pose proof (num_scan_le r) as Hr.
+  destruct (c =? 46); [specialize (Hr (c :: acc) true); cbn [length]; lia|].
+  destruct (c =? 101).
+  - destruct r as [|d r']; [cbn; lia|].
+    destruct ((d =? 45) || (d =? 43)).
+    + destruct r' as [|x r'']; [cbn; lia|].
+      pose proof (num_scan_le r'' (x :: d :: c :: acc) true). cbn [length] in *; lia.
+    + specialize (Hr (c :: acc) true); cbn [length] in *; lia.
+  - rewrite Hc. specialize (Hr (c :: acc) uf); cbn [length] in *; lia.
+Qed.
+
+Lemma sym_span_le : forall s acc, (length (fst (sym_span E s acc)) <= length s)%nat.
+Proof.
+  induction s as [|c r IH]; intros acc; cbn [sym_span]; [cbn; lia|].
+  destruct (is_symbolic E c); [specialize (IH (c :: acc)); cbn [length]; lia | cbn; lia].
+Qed.
+
+Lemma read_sym_le : forall s, (length (fst (read_sym E s)) <= length s)%nat.
+Proof.
+  intros s. unfold read_sym. pose proof (sym_span_le s []) as H.
+  destruct (sym_span E s []); cbn [fst] in *; lia.
+Qed.
+
+Lemma read_sym_lt : forall c r, is_symbolic E c = true ->
+  (length (fst (read_sym E (c :: r))) < length (c :: r))%nat.
+Proof.
+  intros c r Hc. unfold read_sym. cbn [sym_span]. rewrite Hc.
+  pose proof (sym_span_le r [c]) as H. destruct (sym_span E r [c]); cbn [fst length] in *; lia.
+Qed.
+
+Lemma read_string_le : forall s acc, (length (fst (read_string s acc)) <= length s)%nat.
+Proof.
+  assert (G : forall n s, (length s <= n)%nat -> forall acc, (length (fst (read_string s acc)) <= length s)%nat).
+  { induction n as [|n IH]; intros s Hn acc; (destruct s as [|c r]; cbn [read_string]; [cbn; lia|]); cbn [length] in Hn; [lia|].
+    destruct (c =? 34).
+    - destruct r as [|q r']; [cbn; lia|].
+      destruct (q =? 34); [|cbn [fst length] in *; lia].
+      specialize (IH r'). cbn [length] in *. specialize (IH ltac:(lia) (c :: acc)). lia.
+    - specialize (IH r). specialize (IH ltac:(lia) (c :: acc)). cbn [length] in *. lia. }
+  intros s. apply (G (length s)). lia.
+Qed.
+
+Lemma read_op_lt : forall c r, (length (fst (read_op (c :: r))) < length (c :: r))%nat.
+Proof.
+  intros c r. unfold read_op.
+  destruct (starts2 (c :: r) 92 126 || starts2 (c :: r) 92 42); cbn [fst tl length].
+  - pose proof (tl_le _ r). lia.
+  - lia.
+Qed.
+
+Lemma peek_adverb_le : forall s, (length (fst (peek_adverb E s)) <= length s)%nat.
+Proof.
+  intros s. unfold peek_adverb.
+  destruct s as [|c0 [|c1 r]]; cbn [fst length]; [lia| |].
+  - destruct (str_in [c0] (adverbs E)); cbn; lia.
+  - destruct (str_in [c0; c1] (adverbs E)); [cbn; lia|].
+    destruct (str_in [c0] (adverbs E)); cbn; lia.
+Qed.
+
+Lemma peek_more_le : forall s, (length (fst (peek_more E s)) <= length s)%nat.
+Proof.
+  assert (G : forall n s, (length s <= n)%nat -> (length (fst (peek_more E s)) <= length s)%nat).
+  { induction n as [|n IH]; intros s Hn; (destruct s as [|c0 r]; cbn [peek_more]; [cbn; lia|]); cbn [length] in Hn; [lia|].
+    destruct r as [|c1 r2].
+    - destruct (str_in [c0] (adverbs E)); cbn; lia.
+    - destruct (str_in [c0; c1] (adverbs E)).
+      + specialize (IH r2). cbn [length] in *. specialize (IH ltac:(lia)).
+        destruct (peek_more E r2); cbn [fst length] in *; lia.
+      + destruct (str_in [c0] (adverbs E)); [|cbn; lia].
+        specialize (IH (c1 :: r2)). cbn [length] in *. specialize (IH ltac:(lia)).
+        destruct (peek_more E (c1 :: r2)); cbn [fst length] in *; lia. }
+  intros s. apply (G (length s)). lia.
+Qed.
+
+(* ------------------------------------------------------------------ postconditions *)
+(* a token/expression reader at suffix s: the index never moves back; a value means at least one
+   character was consumed; no value means the end of the text was reached *)
+Definition tokpost (s : str) (p : str * ast) : Prop :=
+  (length (fst p) <= length s)%nat /\
+  (is_none (snd p) = false -> (length (fst p) < length s)%nat) /\
+  (is_none (snd p) = true -> fst p = []).
+Definition lenpost {A} (s : str) (p : str * A) : Prop := (length (fst p) <= length s)%nat.
+Definition strpost (s : str) (s' : str) : Prop := (length s' <= length s)%nat.
+
+(* ------------------------------------------------------------------ skip *)
+Lemma skip_total : forall fuel ign s, (fuel >= length s + 1)%nat -> post (strpost s) (skip E fuel ign s).
+Proof.
+  induction fuel as [|f IH]; intros ign s Hf; [lia|].
+  cbn [skip]. pose proof (skip_space_le ign s) as H1.
+  destruct (starts2 (skip_space E ign s) 58 34) eqn:Hc; [|cbn; unfold strpost; lia].
+  destruct (skip_space E ign s) as [|x [|y r]]; cbn [starts2] in Hc; try discriminate.
+  cbn [tl]. pose proof (read_shifted_comment_le r) as H2.
+  eapply post_weaken; [apply IH; cbn [length] in *; lia|].
+  intros a Ha. unfold strpost in *. cbn [length] in *; lia.
+Qed.
+
+Lemma skip_mono : forall f ign s, le_res (skip E f ign s) (skip E (S f) ign s).
+Proof.
+  induction f as [|f IH]; intros ign s; [apply le_oof|].
+  cbn [skip]. mono IH.
+Qed.
+
+(* ------------------------------------------------------------------ leaf readers *)
+Definition ltpost (s : str) (p : str * ast) : Prop :=
+  (length (fst p) < length s)%nat /\ is_none (snd p) = false.
+
+Lemma ltpost_tok : forall s1 s p, (length s1 <= length s)%nat -> ltpost s1 p -> tokpost s p.
+Proof. intros s1 s p H [H1 H2]. unfold tokpost. rewrite H2. repeat split; intros; try lia; discriminate. Qed.
+
+Lemma tokpost_le : forall s1 s p, (length s1 <= length s)%nat -> tokpost s1 p -> tokpost s p.
+Proof. intros s1 s p H (H1 & H2 & H3). unfold tokpost. repeat split; intros; auto; try lia. specialize (H2 H0). lia. Qed.
+
+Lemma read_num_post : forall a0 r, isnumeric E a0 = true \/ (a0 =? 45) = true ->
+  post (ltpost (a0 :: r)) (read_num E (a0 :: r)).
+Proof.
+  intros a0 r H. unfold read_num. destruct (a0 =? 45) eqn:H45.
+  - pose proof (num_scan_le r [a0] false) as Hl.
+    destruct (num_scan E r [a0] false) as [[rest txt] uf]. cbn [fst] in Hl.
+    destruct (num_ok E txt uf); cbn; [|exact I]. split; cbn; [lia|reflexivity].
+  - destruct H as [H|H]; [|congruence].
+    pose proof (num_scan_lt a0 r [] false H) as Hl.
+    destruct (num_scan E (a0 :: r) [] false) as [[rest txt] uf]. cbn [fst] in Hl.
+    destruct (num_ok E txt uf); cbn; [|exact I]. split; cbn [fst snd length] in *; [lia|reflexivity].
+Qed.
+
+Lemma read_char_post : forall s, starts2 s 48 99 = true -> post (ltpost s) (read_char s).
+Proof.
+  intros s H. destruct s as [|x [|y r]]; cbn [starts2] in H; try discriminate.
+  unfold read_char. cbn [tl]. destruct r as [|c r']; cbn; [exact I|]. split; cbn; [lia|reflexivity].
+Qed.
+
+Lemma map_res_dict_post : forall l, post (fun _ => True) (map_res dict_entry l).
+Proof.
+  induction l as [|x r IH]; cbn [map_res]; [exact I|].
+  eapply post_bind with (P := fun _ => True).
+  - destruct x; cbn; auto; try (destruct s as [|? [|? ?]]; cbn; auto).
+    destruct l as [|k [|v ?]]; cbn; auto. destruct (hashable k); cbn; auto.
+  - intros a _. eapply post_bind; [exact IH|]. intros; exact I.
+Qed.
+
+Lemma read_string_some : forall s acc, is_none (snd (read_string s acc)) = false.
+Proof.
+  assert (G : forall n s, (length s <= n)%nat -> forall acc, is_none (snd (read_string s acc)) = false).
+  { induction n as [|n IH]; intros s Hn acc; (destruct s as [|c r']; cbn [read_string]; [reflexivity|]);
+      cbn [length] in Hn; [lia|].
+    destruct (c =? 34).
+    - destruct r' as [|q r'']; [reflexivity|].
+      destruct (q =? 34); [|reflexivity].
+      apply IH. cbn [length] in Hn. lia.
+    - apply IH. lia. }
+  intros s. apply (G (length s)). lia.
+Qed.
+
+Lemma read_sym_some : forall s, is_none (snd (read_sym E s)) = false.
+Proof. intros s. unfold read_sym. destruct (sym_span E s []); reflexivity. Qed.
+
+Lemma read_op_some : forall s, is_none (snd (read_op s)) = false.
+Proof. intros s. unfold read_op. destruct (starts2 s 92 126 || starts2 s 92 42); reflexivity. Qed.
+
+(* ------------------------------------------------------------------ kg_read / read_list: progress and totality *)
+Hypothesis Hdelim : z_in 59 (delims E) = true.
+
+Definition lex_ok (f : nat) (R : lexfuns) : Prop :=
+  (forall rn ign s, (f >= 16 * length s + 2)%nat -> post (tokpost s) (l_kg_read R rn ign s)) /\
+  (forall d s, (f >= 16 * length s + 4)%nat -> post (lenpost s) (l_read_list R d s)) /\
+  (forall d s acc, (f >= 16 * length s + 3)%nat -> post (lenpost s) (l_read_list_loop R d s acc)).
+
+Ltac okpost := cbn [post]; unfold tokpost, lenpost, ltpost, strpost; cbn [fst snd is_none length tl];
+  repeat split; intros; try discriminate; try reflexivity; try lia; try congruence.
+
+Lemma kg_read_body_ok : forall f R, lex_ok f R ->
+  forall rn ign s, (S f >= 16 * length s + 2)%nat -> post (tokpost s) (kg_read_body E f R rn ign s).
+Proof.
+  intros f R (Hkg & Hrl & Hrll) rn ign s Hf. unfold kg_read_body.
+  eapply post_bind; [apply skip_total; lia|]. intros s1 Hs1. unfold strpost in Hs1.
+  destruct s1 as [|a0 r]; [okpost|]. cbn [length] in Hs1.
+  destruct (a0 =? 10) eqn:H10.
+  { rewrite Hdelim. okpost. }
+  destruct (z_in a0 (delims E)); [okpost|].
+  destruct (starts2 (a0 :: r) 48 99) eqn:H0c.
+  { eapply post_weaken; [apply read_char_post; exact H0c|]. intros p Hp. eapply ltpost_tok; [|exact Hp]. cbn [length]; lia. }
+  destruct (isnumeric E a0 || (rn && (a0 =? 45) && match r with d :: _ => isnumeric E d | [] => false end)) eqn:Hnum.
+  { eapply post_weaken; [apply read_num_post|].
+    - apply orb_true_iff in Hnum. destruct Hnum as [Hn|Hn]; [left; exact Hn|right].
+      apply andb_true_iff in Hn. destruct Hn as [Hn _]. apply andb_true_iff in Hn. tauto.
+    - intros p Hp. eapply ltpost_tok; [|exact Hp]. cbn [length]; lia. }
+  destruct (a0 =? 34).
+  { pose proof (read_string_le r []) as Hl. destruct (read_string r []) as [rest v] eqn:Hrs.
+    pose proof (read_string_some r []) as Hv. rewrite Hrs in Hv. cbn [snd] in Hv.
+    cbn [fst] in Hl. okpost. }
+  destruct (a0 =? 58).
+  - destruct r as [|aa r2].
+    + (* ':' at the end of the text: falls through to the operator reader *)
+      destruct (a0 =? 91).
+      { eapply post_bind; [apply Hrl; cbn [length] in *; lia|]. intros [s2 l] Hl. unfold lenpost in Hl. cbn [fst] in Hl. okpost. }
+      destruct (is_symbolic E a0) eqn:Hsym.
+      { pose proof (read_sym_lt a0 [] Hsym) as Hl. destruct (read_sym E [a0]) as [rest v] eqn:Hrs.
+        pose proof (read_sym_some [a0]) as Hv; rewrite Hrs in Hv; cbn [snd] in Hv.
+        cbn [fst length] in *. okpost. }
+      pose proof (read_op_lt a0 []) as Hl. destruct (read_op [a0]) as [rest v] eqn:Hrs.
+      pose proof (read_op_some [a0]) as Hv; rewrite Hrs in Hv; cbn [snd] in Hv.
+      cbn [fst length] in *. okpost.
+    + cbn [length] in Hs1.
+      destruct (isalpha E aa || (aa =? 46)) eqn:Hal.
+      { assert (Hsym : is_symbolic E aa = true).
+        { unfold is_symbolic. apply orb_true_iff in Hal. destruct Hal as [H|H]; rewrite H; [reflexivity|]. apply orb_true_r. }
+        pose proof (read_sym_lt aa r2 Hsym) as Hl. destruct (read_sym E (aa :: r2)) as [rest v] eqn:Hrs.
+        pose proof (read_sym_some (aa :: r2)) as Hv; rewrite Hrs in Hv; cbn [snd] in Hv.
+        cbn [fst length] in *. okpost. }
+      destruct (isnumeric E aa || (aa =? 34)).
+      { eapply post_weaken; [apply Hkg; cbn [length]; lia|]. intros p Hp. eapply tokpost_le; [|exact Hp]. cbn [length]; lia. }
+      destruct (aa =? 123).
+      { eapply post_bind; [apply Hrl; lia|]. intros [s2 d] Hl. unfold lenpost in Hl. cbn [fst] in Hl.
+        eapply post_bind; [apply map_res_dict_post|]. intros kv _. okpost. }
+      destruct (aa =? 91); [okpost|]. destruct (aa =? 124); okpost.
+  - destruct (a0 =? 91).
+    { eapply post_bind; [apply Hrl; lia|]. intros [s2 l] Hl. unfold lenpost in Hl. cbn [fst] in Hl. okpost. }
+    destruct (is_symbolic E a0) eqn:Hsym.
+    { pose proof (read_sym_lt a0 r Hsym) as Hl. destruct (read_sym E (a0 :: r)) as [rest v] eqn:Hrs.
+      pose proof (read_sym_some (a0 :: r)) as Hv; rewrite Hrs in Hv; cbn [snd] in Hv.
+      cbn [fst length] in *. okpost. }
+    pose proof (read_op_lt a0 r) as Hl. destruct (read_op (a0 :: r)) as [rest v] eqn:Hrs.
+    pose proof (read_op_some (a0 :: r)) as Hv; rewrite Hrs in Hv; cbn [snd] in Hv.
+    cbn [fst length] in *. okpost.
+Qed.
+
+Lemma read_list_body_ok : forall f R, lex_ok f R ->
+  forall d s, (S f >= 16 * length s + 4)%nat -> post (lenpost s) (read_list_body E f R d s).
+Proof.
+  intros f R (Hkg & Hrl & Hrll) d s Hf. unfold read_list_body.
+  eapply post_bind; [apply skip_total; lia|]. intros s1 Hs1. unfold strpost in Hs1.
+  eapply post_weaken; [apply Hrll; lia|]. intros p Hp. unfold lenpost in *. lia.
+Qed.
+
+Lemma read_list_loop_body_ok : forall f R, lex_ok f R ->
+  forall d s acc, (S f >= 16 * length s + 3)%nat -> post (lenpost s) (read_list_loop_body E f R d s acc).
+Proof.
+  intros f R (Hkg & Hrl & Hrll) d s acc Hf. unfold read_list_loop_body.
+  destruct (starts1 s d || match s with [] => true | _ :: _ => false end) eqn:Hend.
+  { pose proof (tl_le _ s). destruct (starts1 s d); okpost. }
+  destruct s as [|c0 s0]; [rewrite orb_true_r in Hend; discriminate|].
+  eapply post_bind; [apply Hkg; lia|]. intros [s1 q] (H1 & H2 & H3). cbn [fst snd] in *.
+  destruct (is_none q) eqn:Hq.
+  { pose proof (tl_le _ s1). destruct (starts1 s1 d); okpost. }
+  specialize (H2 eq_refl).
+  eapply post_bind; [apply skip_total; lia|]. intros s3 Hs3. unfold strpost in Hs3.
+  eapply post_weaken; [apply Hrll; cbn [length] in *; lia|]. intros p Hp. unfold lenpost in *. lia.
+Qed.
+
+Lemma lex_total : forall f, lex_ok f (lex_iter E f).
+Proof.
+  induction f as [|f IH].
+  - repeat split; intros; lia.
+  - cbn [lex_iter]. repeat split; cbn [l_kg_read l_read_list l_read_list_loop]; intros.
+    + apply kg_read_body_ok; assumption.
+    + apply read_list_body_ok; assumption.
+    + apply read_list_loop_body_ok; assumption.
+Qed.
+
+Lemma kg_read_total : forall f rn ign s, (f >= 16 * length s + 2)%nat -> post (tokpost s) (kg_read E f rn ign s).
+Proof. intros. apply lex_total. assumption. Qed.
+
 End P.
